@@ -30,6 +30,7 @@ func VerifC07_PendingTask() {
 		verifAssert(false, "after cancellation every token's goroutine exits")
 	}
 	verifAssert(verifGet(&nx) == 0, "a cancelled instance does not move on")
+	verifAssert(inst.sendersReleased(), "after cancellation every sender handle registered with the instance's tracer is released (the tracer can terminate)")
 	verifAssert(inst.count("a") <= 1, "no task request is repeated because of the cancellation")
 }
 
@@ -60,6 +61,7 @@ func verifC07Catch(anywhere bool) {
 		verifAssert(false, "after cancellation every token's goroutine exits")
 	}
 	verifAssert(verifGet(h1) == 0, "a cancelled instance does not move on")
+	verifAssert(inst.sendersReleased(), "after cancellation every sender handle registered with the instance's tracer is released (the tracer can terminate)")
 }
 
 func VerifC07_ListeningCatch()         { verifC07Catch(false) }
@@ -94,6 +96,7 @@ func VerifC07_HalfFullJoin() {
 		verifAssert(false, "after cancellation every token's goroutine exits")
 	}
 	verifAssert(verifGet(&hits) == 0, "a cancelled instance does not move on")
+	verifAssert(inst.sendersReleased(), "after cancellation every sender handle registered with the instance's tracer is released (the tracer can terminate)")
 }
 
 // a token at an exclusive gateway (probing its conditions) when the context is cancelled at an arbitrary point
@@ -128,6 +131,7 @@ func VerifC07_ExclusiveGateway() {
 		verifAssert(false, "after cancellation every token's goroutine exits")
 	}
 	verifAssert(verifGet(&h0)+verifGet(&hd) <= 1, "a cancelled instance does not move on")
+	verifAssert(inst.sendersReleased(), "after cancellation every sender handle registered with the instance's tracer is released (the tracer can terminate)")
 }
 
 // two alternatives of an event-based gateway wait for their events when the context is cancelled
@@ -154,4 +158,42 @@ func VerifC07_EventBasedWaiting() {
 		verifAssert(false, "after cancellation every token's goroutine exits")
 	}
 	verifAssert(verifGet(h1)+verifGet(h2) == 0, "a cancelled instance does not move on")
+	verifAssert(inst.sendersReleased(), "after cancellation every sender handle registered with the instance's tracer is released (the tracer can terminate)")
+}
+
+// two tokens wait at a 3-way parallel join (the gateway has been entered twice) when the context is cancelled
+func VerifC07_JoinEnteredTwice() {
+	b := verifNewB("p")
+	b.flow("i1", "s", "gw", false)
+	b.flow("i2", "s", "gw", false)
+	b.flow("i3", "s", "gw", false)
+	b.parallel("gw", []string{"i1", "i2", "i3"}, []string{"o"})
+	b.flow("o", "gw", "t", false)
+	b.task("t", []string{"o"}, nil)
+	inst := verifNewInst(b)
+	if inst.proc == nil {
+		return
+	}
+	var hits int64
+	inst.sinkAt("t", &hits)
+	inst.tokenAt("gw", "i1")
+	inst.tokenAt("gw", "i2")
+	verifQuiesce()
+	inst.cancel()
+	done := make(chan struct{})
+	go func() {
+		inst.proc.flowWaitGroup.Wait()
+		close(done)
+	}()
+	verifQuiesce()
+	verifReach("quiescent")
+	exited := false
+	select {
+	case <-done:
+		exited = true
+	default:
+	}
+	verifAssert(exited, "after cancellation every token's goroutine exits")
+	verifAssert(verifGet(&hits) == 0, "a cancelled instance does not move on")
+	verifAssert(inst.sendersReleased(), "after cancellation every sender handle registered with the instance's tracer is released (the tracer can terminate)")
 }
